@@ -4,14 +4,16 @@ import (
 	"testing"
 )
 
+const vHardened = uint32(1) << 31 // BIP-32 hardened bit (the driver's own constant)
+
 func pathOut(p Path) [][]int {
 	r := make([][]int, len(p))
 	for i, v := range p {
 		h := 0
-		if v >= hardened {
+		if v >= vHardened {
 			h = 1
 		}
-		r[i] = []int{h, int(v &^ hardened)}
+		r[i] = []int{h, int(v &^ vHardened)}
 	}
 	return r
 }
@@ -26,7 +28,7 @@ func pathIn(v interface{}) Path {
 		e := vIntList(x)
 		p[i] = uint32(e[1])
 		if e[0] == 1 {
-			p[i] |= hardened
+			p[i] |= vHardened
 		}
 	}
 	return p
@@ -102,8 +104,8 @@ func TestVerifDriver(t *testing.T) {
 				for z := r.Intn(3); z > 0 && r.Intn(2) == 0; z-- {
 					s += "0"
 				}
-				s += itoa(v &^ hardened)
-				if v >= hardened {
+				s += itoa(v &^ vHardened)
+				if v >= vHardened {
 					s += []string{"'", "H"}[r.Intn(2)]
 				}
 			}
